@@ -996,6 +996,78 @@ def run(chk):
             break
     phase("python primitives")
 
+    # -- 1b. the write queue of the simulator's memory state, at unit level ---------------------------
+    # scripts of `_PyMemoryState.write(addr, value, mask)` calls followed by one `commit()` on the real class, against
+    # `Mem.runOps` (Model/MemQueue.lean; theorems queued_row, writes_to_distinct_rows_commute, commit_reports_change)
+    from amaranth.hdl import MemoryData, unsigned, signed
+    from amaranth.sim.pysim import _PyMemoryState
+    reqs, exp, descr = [], [], []
+    for _ in range(600 if quick else 12000):
+        w = rng.choice([0, 1, 2, 3, 4, 8, 8, 13])
+        sg = w > 0 and rng.random() < 0.5
+        depth = rng.choice([1, 1, 2, 3, 5])
+        lo, hi = (-(1 << (w - 1)), (1 << (w - 1)) - 1) if sg else (0, (1 << w) - 1)
+        init = [rng.randint(lo, hi) for _i in range(depth)]
+        hot = rng.randrange(depth)
+        ops = []
+        for _k in range(rng.choice([1, 2, 2, 3, 4, 6])):
+            a = hot if rng.random() < 0.6 else rng.choice([rng.randrange(depth), depth, depth + 3])
+            r = rng.random()
+            if r < 0.25:
+                v = init[a] if a < depth else 0                  # the row's own value: nothing changes
+            else:
+                v = rng.randint(lo, hi)
+            mk = None if rng.random() < 0.35 else rng.choice([0, (1 << w) - 1, rng.getrandbits(w) if w else 0,
+                                                             ((1 << w) - 1) & 0x0f0f, ((1 << w) - 1) & ~0x0f0f])
+            ops.append((a, v, mk))
+        md = MemoryData(shape=signed(w) if sg else unsigned(w), depth=depth, init=init)
+        st = _PyMemoryState(md, set())
+        try:
+            for a, v, mk in ops:
+                st.write(a, v, mk)
+            changed = st.commit() if st.write_queue else False
+            got = ("ok", list(st.data), bool(changed), len(st.write_queue))
+        except Exception as e:
+            got = ("raise:" + common.errkind(e), [], False, 0)
+        reqs.append(f"(mq {w} {'s' if sg else 'u'} ({' '.join(map(str, init))}) " +
+                    " ".join(f"(op {a} {v} {'none' if mk is None else mk})" for a, v, mk in ops) + ")")
+        exp.append(got)
+        descr.append({"width": w, "signed": sg, "init": init, "ops": ops})
+    for q, r, g, dsc in zip(reqs, chk.driver.ask(reqs), exp, descr):
+        chk.count()
+        chk.hist("write_queue_script", f"{len(dsc['ops'])} writes")
+        if not r.startswith("mq "):
+            chk.not_shown("driver could not evaluate a write-queue script", {"request": q, "response": r[:200]})
+            break
+        d = common.kv(r)
+        mrows = [int(x) for x in d["rows"].split(",")] if d["rows"] else []
+        if g[0] != "ok":
+            chk.violation(f"_PyMemoryState.write/commit raises {g[0]}", dict(dsc, kind="write-queue-raises", request=q, classes=[]))
+            break
+        # array semantics computed here, independent of both: per row, writes in order, masked bits over the row so far
+        rows = list(dsc["init"])
+        wmask = (1 << dsc["width"]) - 1
+        for a, v, mk in dsc["ops"]:
+            if a < len(rows):
+                nv = v if mk is None else (v & mk) | (rows[a] & ~mk)
+                if dsc["signed"]:
+                    nv &= wmask
+                    if dsc["width"] and nv >> (dsc["width"] - 1):
+                        nv -= 1 << dsc["width"]
+                rows[a] = nv
+        want_changed = rows != dsc["init"]
+        chk.hist("write_queue_changed", want_changed)
+        if g[1] != rows or g[2] != want_changed or g[3] != 0:
+            chk.violation(f"write queue of the simulator's memory: after {len(dsc['ops'])} writes and commit() the rows are {g[1]} (changed={g[2]}, "
+                          f"{g[3]} entries left queued); writes applied in order to an array of rows give {rows} (changed={want_changed})",
+                          dict(dsc, kind="write-queue", impl=list(g), spec=[rows, want_changed], model=r, request=q, classes=[]))
+            break
+        if mrows != rows or d["changed"] != str(int(want_changed)):
+            chk.not_shown("impl = array of rows, but Model/MemQueue.lean runOps differs", dict(dsc, request=q, model=r, impl=list(g)))
+            break
+        chk.distinct(q, len(dsc["ops"]) >= 2)
+    phase("write queue (unit level)")
+
     # -- 2. constructors (the malformed stream) -----------------------------------------------------
     shapes = [("u", 0), ("u", 1), ("u", 4), ("u", 6), ("u", 8), ("s", 1), ("s", 4), ("s", 8),
               ("struct", (("a", 2, False), ("b", 2, True))), ("array", 2, 4), ("array", 3, 6), ("array", 0, 3),
